@@ -590,3 +590,44 @@ def rescaled_tangent_vectors(tier, rng, rep):
             rep.case(key=(t, pattern), nontrivial=pattern != "unit", sample=inp if (t, pattern) == (0, "mixed_signs") else None)
             if len(rep.failures) >= 3:
                 return
+
+
+@bounded(P, "rescaled_horosphere_intersections", functions=[H + "Horosphere.intersect_geodesic", H + "Horosphere.__init__", H + "Segment._compute_aux_data"],
+         note="horosphere / geodesic intersection points under independent rescaling of the two points spanning the geodesic, of the horosphere's centre and of its reference point "
+              "(factors of both signs, equal and very different magnitudes): the same two points, each on the geodesic and on the horosphere")
+def rescaled_horosphere_intersections(tier, rng, rep):
+    N = 100 if tier == 'thorough' else 25
+    patterns = [(1, 1, 1, 1), (2, 0.5, 1, 1), (1, -1, 1, 1), (-1, 1, 1, 1), (-2, -3, 1, 1), (0.3, -7, 1, 1), (1, 1, -2, 1), (1, 1, 1, -0.5), (-1, 1, -3, -2), (1e3, -1e3, 1, 1)]
+    rep.rule = "n = 2, 3; geodesic through two interior points meeting the horosphere twice; factor patterns (a, b, c, d) on (p, q, centre, reference): " + ", ".join(map(str, patterns))
+    rep.bound = f"{N} configurations x {len(patterns)} patterns"
+    for t in range(N):
+        n = 2 + t % 2
+        while True:
+            cdir = rng.normal(size=n); cdir /= np.linalg.norm(cdir)
+            refk = rng.normal(size=n); refk = refk / np.linalg.norm(refk) * rng.uniform(0.0, 0.5)
+            pk, qk = (lambda v: v / np.linalg.norm(v) * rng.uniform(0.1, 0.9))(rng.normal(size=n)), (lambda v: v / np.linalg.norm(v) * rng.uniform(0.1, 0.9))(rng.normal(size=n))
+            cen, ref, p, q = np.concatenate([[1.0], cdir]), spec.k2proj(refk), spec.k2proj(pk), spec.k2proj(qk)
+            with np.errstate(all='ignore'):
+                base = np.asarray(h.Horosphere(h.IdealPoint(cen.copy()), h.Point(ref.copy())).intersect_geodesic(h.Point(p.copy()), h.Point(q.copy())).coords("klein"), dtype=float)
+            if base.shape == (2, n) and np.all(np.isfinite(base)) and np.linalg.norm(base[0] - base[1]) > 0.05 and np.all(np.linalg.norm(base, axis=-1) < 0.97):      # (well-conditioned: away from the boundary)
+                break
+        # semantic facts about the reference answer: on the Klein line through p, q and at the reference point's horospherical level
+        lvl = lambda k_: (1 - k_ @ cdir) / np.sqrt(1 - k_ @ k_)
+        inp0 = {"n": n, "p": p.tolist(), "q": q.tolist(), "centre": cen.tolist(), "reference": ref.tolist()}
+        for x in base:
+            if np.linalg.matrix_rank(np.stack([qk - pk, x - pk]), tol=1e-7) > 1 or abs(lvl(x) - lvl(refk)) > 1e-6 * (1 + lvl(refk)):
+                rep.fail("intersection_points_on_both", f"{x.tolist()}", inp0)
+        for pat in patterns:
+            a, b, c, d = pat
+            inp = {**inp0, "factors": list(pat)}
+
+            def body():
+                with np.errstate(all='ignore'):
+                    got = np.asarray(h.Horosphere(h.IdealPoint(c * cen), h.Point(d * ref)).intersect_geodesic(h.Point(a * p), h.Point(b * q)).coords("klein"), dtype=float)
+                ok = got.shape == base.shape and np.all(np.isfinite(got)) and (np.all(np.abs(got - base) <= 1e-6) or np.all(np.abs(got - base[::-1]) <= 1e-6))
+                if not ok:
+                    rep.fail("intersection_independent_of_representatives", f"factors {pat}: {got.tolist()} vs {base.tolist()}", inp)
+            rep.attempt("entry_point_runs", inp, body)
+            rep.case(key=(t, pat), nontrivial=min(pat) < 0, sample=inp if (t, pat) == (0, (1, -1, 1, 1)) else None)
+            if len(rep.failures) >= 3:
+                return
